@@ -11,7 +11,7 @@ PROP = {
              {"tag": "c05gen", "bin": "c05", "num": 105}],
     "mismatch_is_failing": True,
     "regen_files": ["GenIter.v"],
-    "rule": "exhaustive: N<=6 (thorough 8) x every (front,back) position x {none, next, next_back, nth k, nth_back k for k in 0..=len+2} x every choice of the panicking element (and none) x {drop, count, last}, the caller catching every unwind and then using the iterator again; plus the teardown of the array itself, of ArrayBuilder / IntrusiveArrayBuilder with p slots written and of ArrayConsumer with p elements consumed, for every p and every panicking element; plus seeded histories for N in {1,2,3,5,8,16,33}; run c05forms: a destructor panicking inside the caller's closure of map / zip / fold / iterator fold+rfold (every form, every call index); run c05gen: all of the above with the iterator methods and the builder / consumer Drop impls executed through the programs regenerated from the source. distinct = distinct CASE lines; non-trivial = a destructor is armed (second integer >= 0)",
+    "rule": "exhaustive: N<=6 (thorough 8) x every (front,back) position x {none, next, next_back, nth k, nth_back k for k in 0..=len+2} x every choice of the panicking element (and none) x {drop, count, last}, the caller catching every unwind and then using the iterator again; plus the teardown of the array itself, of ArrayBuilder / IntrusiveArrayBuilder with p slots written and of ArrayConsumer with p elements consumed, for every p and every panicking element; plus the array torn down inside try_from_iter when a source with size_hint (0, None) yields L <> N items (every L in 0..=N+2, every panicking element); plus seeded histories for N in {1,2,3,5,8,16,33}; run c05forms: a destructor panicking inside the caller's closure of map / zip / fold / iterator fold+rfold (every form, every call index); run c05gen: all of the above with the iterator methods and the builder / consumer Drop impls executed through the programs regenerated from the source. distinct = distinct CASE lines; non-trivial = a destructor is armed (second integer >= 0)",
     "nontrivial": lambda case, obs: int(case.split()[1]) >= 0,
     "manifest": {
         "design_ref": "DESIGN.md section 7, C05",
